@@ -45,3 +45,75 @@ func debugC16(h *c16Harness) {
 		fmt.Printf("%d\n  w0 %s\n  w1 %s\n  w2 %s\n", i, a, b, c)
 	}
 }
+
+type logMeter struct {
+	faultMeter
+	log []string
+}
+
+func debugGasDiff(a, b *World, ev *Event) {
+	if os.Getenv("VERIF_DEBUG_GAS") == "" || ev.Kind != "tx" {
+		return
+	}
+	run := func(w *World) []string {
+		msgs, _ := w.DecodeMsgs(cloneEvent(ev))
+		var lg []string
+		m := &faultMeter{}
+		ctx, _ := w.WCtx().CacheContext()
+		var last uint64
+		m.onAccess = func() {
+			lg = append(lg, fmt.Sprintf("+%d", m.consumed-last))
+			last = m.consumed
+		}
+		ctx = ctx.WithGasMeter(m)
+		for _, msg := range msgs {
+			h := w.App.MsgServiceRouter().Handler(msg)
+			func() {
+				defer func() {
+					if r := recover(); r != nil {
+						lg = append(lg, fmt.Sprintf("panic=%v", r))
+					}
+				}()
+				_, err := h(ctx, msg)
+				lg = append(lg, fmt.Sprintf("err=%v", err))
+			}()
+		}
+		lg = append(lg, fmt.Sprintf("total=%d", m.consumed))
+		return lg
+	}
+	la, lb := run(a), run(b)
+	fmt.Println("handler gas primary:", la[len(la)-1], "other:", lb[len(lb)-1], "n", len(la), len(lb))
+	for i := 0; i < len(la) && i < len(lb); i++ {
+		if la[i] != lb[i] {
+			fmt.Println("first diff at", i, la[i], lb[i])
+			break
+		}
+	}
+}
+
+func debugVolatileDiff(a, b *World) {
+	if os.Getenv("VERIF_DEBUG_GAS") == "" {
+		return
+	}
+	ka := storeKeys(a)
+	for _, name := range sortedKeys(ka) {
+		sa := a.WCtx().MultiStore().GetKVStore(ka[name])
+		sb := b.WCtx().MultiStore().GetKVStore(storeKeys(b)[name])
+		ia, ib := sa.Iterator(nil, nil), sb.Iterator(nil, nil)
+		na, nb := 0, 0
+		var da, db string
+		for ; ia.Valid(); ia.Next() {
+			na++
+			da += string(ia.Key()) + "=" + string(ia.Value()) + ";"
+		}
+		for ; ib.Valid(); ib.Next() {
+			nb++
+			db += string(ib.Key()) + "=" + string(ib.Value()) + ";"
+		}
+		ia.Close()
+		ib.Close()
+		if da != db {
+			fmt.Printf("STORE DIFF %s (%T): %d vs %d entries\n", name, ka[name], na, nb)
+		}
+	}
+}
